@@ -63,7 +63,7 @@ func checkC16(c *Ctx) error {
 		"precondition: AddRange(begin,end) with 0 <= begin <= end; Complement(limit) with every element <= limit")
 	cfg := symx.DefaultConfig()
 	cfg.ValidateEvery = 7
-	entries := []string{"Has", "AddOne", "Copy", "Complement", "Len", "ComplementLen", "UnionLen", "String", "Union", "UnionAlias", "Intersects", "Equal", "Empty"}
+	entries := c16Entries
 	runner := &NativeRunner{Dir: ws.HX, PkgPath: pkg, Entries: entries}
 	res := RunJobs(l, jobs, c.Workers, cfg, c.Deadline)
 	c.Programs = 1
@@ -72,3 +72,14 @@ func checkC16(c *Ctx) error {
 }
 
 func cmdReplay(file string) int { return replayFile(file) }
+
+var c16Entries = []string{"Has", "AddOne", "Copy", "Complement", "Len", "ComplementLen", "UnionLen", "String", "Union", "UnionAlias", "Intersects", "Equal", "Empty"}
+
+func init() {
+	replayers["C16"] = func(ws *Workspace, f *Finding) (*ReplayOutcome, error) {
+		if err := ws.CopyHarness("c16", filepath.Join(ws.HX, "c16")); err != nil {
+			return nil, err
+		}
+		return replayInPkg(ws.HX, "hx/c16", c16Entries, f)
+	}
+}
